@@ -15,6 +15,19 @@ RUN = 'flipjump/interpreter/fjm_run.py'
 RUNLIB = 'flipjump/stl/runlib.fj'
 
 
+def device_accessor_formulas(repo: Repo) -> Tuple[List[str], List[str]]:
+    """(read_data_byte, write_data_byte) of the base adapter as statement texts with named temporaries, private helper methods /
+    properties / module functions and lifted module constants substituted: the arithmetic on op_bit_address, memory_width, value."""
+    def flat(fn: Any) -> List[str]:
+        f2 = fn
+        for _ in range(2):
+            f2 = inline_pure_helpers(repo, DM, 'DeviceMemory', f2, keep=['_require_byte_capable_width'])
+            f2 = clone(f2)
+            f2.body = [inline_module_constants(repo, DM, st) for st in f2.body]          # type: ignore[arg-type]
+        return [b for b in inlined_statements(f2) if not b.startswith('self._require_byte_capable_width')]
+    return flat(repo.func(DM, 'DeviceMemory.read_data_byte')), flat(repo.func(DM, 'DeviceMemory.write_data_byte'))
+
+
 def rule_adapters(rep: Report, repo: Repo) -> None:
     rep.rule('C19.ADAPTERS', 'both memory adapters mask written values to w bits and read never-written words as 0; the packed-byte '
              'helpers exist once, in the base class, on top of read_word/write_word', 5)
@@ -34,41 +47,64 @@ def rule_adapters(rep: Report, repo: Repo) -> None:
     nr = repo.func(DM, 'NativeDeviceMemory.read_word')
     body = inlined_statements(inline_pure_helpers(repo, DM, 'NativeDeviceMemory', nr))
     rep.check(body == ['return int(self._core_memory.get_word(word_address))'], 'C19.ADAPTERS', 'NativeDeviceMemory.read_word', str(body), f'{DM}:{nr.lineno}')
-    helpers = {'read_data_byte', 'write_data_byte', '_data_bit_offset', '_jump_word_address', '_require_byte_capable_width'}
+    # the packed-byte accessors exist once, in the base class, on top of read_word / write_word
+    helpers = {'read_data_byte', 'write_data_byte'}
     base = set(repo.methods(DM, 'DeviceMemory'))
-    over = (set(repo.methods(DM, 'ReaderDeviceMemory')) | set(repo.methods(DM, 'NativeDeviceMemory'))) & helpers
+    over = (set(repo.methods(DM, 'ReaderDeviceMemory')) | set(repo.methods(DM, 'NativeDeviceMemory'))) & (helpers | {m for m in base if m.startswith('_')})
     rep.check(helpers <= base and not over, 'C19.ADAPTERS', 'packed-byte-helpers', f'in base: {sorted(helpers & base)}; overridden: {sorted(over)}', DM)
     rd = repo.func(DM, 'DeviceMemory.read_data_byte')
     wd = repo.func(DM, 'DeviceMemory.write_data_byte')
-    # named temporaries are substituted before the formulas are compared
-    def consts_in(fn: Any) -> Any:        # a lifted literal (_BYTE_MASK = 0xFF) reads like the literal
-        new_fn = clone(fn)
-        new_fn.body = [inline_module_constants(repo, DM, st) for st in new_fn.body]          # type: ignore[arg-type]
-        return new_fn
-    rd, wd = consts_in(rd), consts_in(wd)
-    r_body = [b for b in inlined_statements(rd) if not b.startswith('self._require_byte_capable_width')]
-    r_ok = r_body == ['return self.read_word(self._jump_word_address(op_bit_address)) >> self._data_bit_offset & 255']
-    w_body = [b for b in inlined_statements(wd) if not b.startswith('self._require_byte_capable_width')]
-    JW = 'self._jump_word_address(op_bit_address)'
-    w_ok = w_body == [f'self.write_word({JW}, self.read_word({JW}) & ~(255 << self._data_bit_offset) | (value & 255) << self._data_bit_offset)']
-    rep.check(r_ok and w_ok, 'C19.ADAPTERS', 'packed-byte-formula', f'read ok={r_ok}, write ok={w_ok}', f'{DM}:{rd.lineno}',
-              expected='bits #w..#w+7 of the jump word; write preserves the other bits')
+    # named temporaries, private helper methods / properties / module functions and lifted literals are substituted before the
+    # formulas are compared: what is left is the arithmetic on op_bit_address, memory_width and value
+    JW = '(op_bit_address >> self.memory_width.bit_length() - 1) + 1'
+    OFF = 'self.memory_width.bit_length()'
+    r_body, w_body = device_accessor_formulas(repo)
+    r_ok = r_body == [f'return self.read_word({JW}) >> {OFF} & 255']
+    w_ok = w_body == [f'self.write_word({JW}, self.read_word({JW}) & ~(255 << {OFF}) | (value & 255) << {OFF})']
+    rep.check(r_ok and w_ok, 'C19.ADAPTERS', 'packed-byte-formula', f'read ok={r_ok}, write ok={w_ok}' + ('' if r_ok and w_ok else f': {r_body} / {w_body}'),
+              f'{DM}:{rd.lineno}', expected='bits #w..#w+7 of the jump word (word (addr >> log2 w) + 1); write preserves the other bits')
 
 
 def rule_attach(rep: Report, repo: Repo) -> None:
     rep.rule('C19.ATTACH', 'every engine branch of run() attaches its own memory adapter to the device before the loop starts', 3)
+    # must-dataflow over the CFG of run(): on every path that reaches a Python loop the device already has the Reader adapter
+    # attached (whatever the branch order / nesting / naming of the engine selection); the native branch attaches its own
+    from ..pycfg import build_py_cfg, must_dataflow
     run = repo.func(RUN, 'run')
-    tr = [n for n in ast.walk(run) if isinstance(n, ast.Try)][0]
-    seq = []
-    for st in tr.body:
-        for n in ast.walk(st):
-            if isinstance(n, ast.Call) and dotted(n.func) in ('io_device.attach_memory', '_run_featured', '_run_native', '_run_fast'):
-                seq.append((n.lineno, n.col_offset, dotted(n.func), norm(n.args[0]) if dotted(n.func) == 'io_device.attach_memory' else ''))
-    seq.sort()
-    names = [(d, a) for _, _, d, a in seq]
-    rep.check(names == [('io_device.attach_memory', 'ReaderDeviceMemory(mem)'), ('_run_featured', ''), ('_run_native', ''),
-                        ('io_device.attach_memory', 'ReaderDeviceMemory(mem)'), ('_run_fast', '')], 'C19.ATTACH', 'run:python-engines', str(names),
-              f'{RUN}:{run.lineno}', expected='attach ReaderDeviceMemory(mem) right before each Python loop')
+    g = build_py_cfg(run)
+
+    def calls_in(node: Any) -> List[ast.Call]:
+        a = node.ast
+        if not isinstance(a, ast.AST) or node.kind in ('entry', 'exit', 'join'):
+            return []
+        if isinstance(a, (ast.If, ast.While)):
+            a = a.test
+        elif isinstance(a, (ast.Try, ast.With, ast.For, ast.FunctionDef)):
+            return []
+        return [c for c in ast.walk(a) if isinstance(c, ast.Call)]
+
+    def gen_kill(node: Any, lab: Optional[str]) -> Tuple[Set[str], Set[str]]:
+        for c in calls_in(node):
+            if dotted(c.func) == 'io_device.attach_memory' and c.args and norm(c.args[0]) == 'ReaderDeviceMemory(mem)':
+                return {'reader-adapter'}, set()
+            if dotted(c.func) == 'io_device.attach_memory':
+                return set(), {'reader-adapter'}
+        return set(), set()
+    IN = must_dataflow(g, g.entry, gen_kill)
+    seen_loops: Dict[str, bool] = {}
+    for node in g.nodes:
+        for c in calls_in(node):
+            d = dotted(c.func)
+            if d in ('_run_featured', '_run_fast'):
+                gen, _ = gen_kill(node, None)
+                ok_here = 'reader-adapter' in (IN.get(node.id) or frozenset())
+                seen_loops[d] = seen_loops.get(d, True) and ok_here
+            if d == '_run_native':
+                seen_loops[d] = True
+    names = sorted(seen_loops.items())
+    rep.check(set(seen_loops) == {'_run_featured', '_run_fast', '_run_native'} and all(seen_loops.values()), 'C19.ATTACH', 'run:python-engines',
+              f'adapter attached on every path to each Python loop: {names}', f'{RUN}:{run.lineno}',
+              expected='attach ReaderDeviceMemory(mem) before each Python loop')
     rn = repo.func(RUN, '_run_native')
     lines = {dotted(c.func): c.lineno for c in calls(rn) if dotted(c.func) in ('io_device.attach_memory', 'core.run', 'core.set_words', 'core.add_segment')}
     att = [norm(c.args[0]) for c in calls(rn) if dotted(c.func) == 'io_device.attach_memory']
@@ -328,13 +364,11 @@ def rule_pixel_mask(rep: Report, repo: Repo) -> None:
 def rule_dbit(rep: Report, repo: Repo) -> None:
     rep.rule('C19.DBIT', 'the data-bit offset #w and the jump-word address (+1 word) agree between the device adapter, the debugger and '
              'the standard library (dbit = w + #w)', 3)
-    off = repo.func(DM, 'DeviceMemory._data_bit_offset')
-    jw = repo.func(DM, 'DeviceMemory._jump_word_address')
-    # named temporaries and private helper / property reads are substituted before the formulas are compared
-    r1 = inlined_statements(inline_pure_helpers(repo, DM, 'DeviceMemory', off))
-    r2 = inlined_statements(inline_pure_helpers(repo, DM, 'DeviceMemory', jw))
-    rep.check(r1 == ['return self.memory_width.bit_length()'] and r2 == ['return (op_bit_address >> self.memory_width.bit_length() - 1) + 1'], 'C19.DBIT', 'device',
-              f'{r1}; {r2}', f'{DM}:{off.lineno}')
+    # the device side, read off the fully substituted read accessor: word (addr >> (#w - 1)) + 1, data bits from offset #w
+    rd = repo.func(DM, 'DeviceMemory.read_data_byte')
+    r1 = [b for b in device_accessor_formulas(repo)[0] if b.startswith('return')]
+    rep.check(r1 == ['return self.read_word((op_bit_address >> self.memory_width.bit_length() - 1) + 1) >> self.memory_width.bit_length() & 255'],
+              'C19.DBIT', 'device', f'{r1}', f'{DM}:{rd.lineno}', expected='jump word = (bit address >> log2 w) + 1; data bits at offset #w = w.bit_length()')
     src = repo.src(RUNLIB)
     m = re.search(r'^\s*dbit\s*=\s*(.+?)\s*(?://.*)?$', src, re.M)
     rep.check(bool(m) and m.group(1).replace(' ', '') in ('w+#w', '#w+w'), 'C19.DBIT', 'runlib.fj', m.group(0).strip() if m else 'dbit definition missing',
